@@ -84,6 +84,19 @@ chk("C20", "model_checking",
     "TLA+ spec Checks.tla model-checked by TLC; behaviours replayed into xfab; implementation traces validated against Trace_Checks.tla",
     "DESIGN.md section 7 C20")
 
+chk("C19", "model_checking",
+    "Parameters.tla is a dictionary-level model of the parameters object (tokens for int/float/text kinds, dumbtypecheck coercion, "
+    "vary lists, the companion object, the sorted text file, load into the same or a fresh object). TLC enumerates every behaviour "
+    "with 2 (quick) / 3 (thorough) API events over a small alphabet and simulates behaviours of 25 events over a rich alphabet, "
+    "checking RoundTrip, VariedFollows, TypeOK and the action property VarylistLegal; every behaviour is replayed into a real object "
+    "and the full projected state compared after every call. hypothesis histories (<= 30 events; random doubles compared bit-exactly, "
+    "ints to 2^62, numeric-looking/padded/blank text) recorded from the real object are validated by TLC against "
+    "Trace_Parameters.tla; an intact canary trace must be accepted and two corrupted ones rejected on every run.",
+    "Trusted: TLC; the token<->value tables of the harness; Python facts (float repr round trip, int()/float() grammar). Text values come "
+    "from templates of known kind; underscores in numeric text are not generated.",
+    "TLA+ spec Parameters.tla model-checked/simulated by TLC; behaviours replayed step by step; implementation traces validated against Trace_Parameters.tla",
+    "DESIGN.md section 7 C19")
+
 ALL = ["C%02d" % i for i in range(1, 21)]
 
 
